@@ -1,7 +1,7 @@
 SPECIFICATION Spec
 CONSTANTS
   MaxLen = 4
-  TamperTopos = {1}
+  TamperTopos = {2}
 INVARIANTS Honest SegIDInSync NoDeliveryAfterTamper AnswersComeBack
 PROPERTIES Frame
 CHECK_DEADLOCK FALSE
